@@ -285,6 +285,10 @@ func c12Child(args []string) int {
 		base := coldRoot()
 		alone := make([]string, len(reqs))
 		for i, rq := range reqs {
+			if strings.HasPrefix(kind, "zoo") {
+				// "run alone" taken literally: a cold root of its own for every request
+				base = coldRoot()
+			}
 			alone[i] = respText(base.ResolveString(rq.text, rq.op, copyVars(rq.vars)))
 		}
 		ys.on = true
